@@ -1,11 +1,16 @@
 #!/bin/bash
-# usage: muttest.sh <patch.diff> <PROP>...   — apply a seeded change to /repo, run the checks, undo
-patch=$1; shift
+# usage: muttest.sh <patch.diff> <PROP>...   — apply a seeded change to /repo, run the checks, undo.
+# Evidence written under a seeded change is not evidence: the evidence directory is put back as it was.
+patch=$(realpath "$1"); shift
 cd /repo && git status --short | grep -q . && { echo "/repo not clean"; exit 2; }
+keep=$(mktemp -d /tmp/evkeep.XXXXXX)
+cp -a /verif/evidence/. "$keep"/
 git apply "$patch" || exit 2
 for p in "$@"; do
   ( cd /verif && timeout 3000 ./vcheck $p 2>&1 | tail -3 )
 done
-git -C /repo checkout -- . 
-git -C /verif checkout -- evidence   # evidence written under a seeded change is not evidence
+git -C /repo checkout -- .
+mkdir -p /verif/evidence/last-seeded-replays && cp -a /verif/evidence/replays/. /verif/evidence/last-seeded-replays/ 2>/dev/null
+for f in "$keep"/C*.json; do cp -a "$f" /verif/evidence/; done
+rm -rf "$keep"
 git -C /repo status --short | head -3
